@@ -35,5 +35,12 @@ NodeSubjectNodes(B, n) ==
 \* nodes one of whose assertions carries an assertion of its own (e.g. a salted or
 \* annotated assertion)
 Decorated(B) == {Node(s, {Node(Assn(p, o), {Assn(p2, o2)})}) : s \in B, p \in B, o \in B, p2 \in B, o2 \in B}
+\* nodes with two / three simple assertions (ordering of assertion elements matters on the wire)
+Nodes2(B) == {Node(s, {a, b}) : s \in B, a \in AL(B, 3), b \in AL(B, 3)} \ {Node(s, {a}) : s \in B, a \in AL(B, 3)}
+Nodes3(B) == {Node(s, {a, b, c}) : s \in B, a \in AL(B, 3), b \in AL(B, 3), c \in AL(B, 3)}
+             \ ({Node(s, {a}) : s \in B, a \in AL(B, 3)} \cup Nodes2(B))
+\* leaves holding a CBOR-tagged known value (same digest as the known value itself)
+TkvShapes == {Leaf(TKV(1)), Wrap(Leaf(TKV(1))), Assn(Leaf(TKV(1)), KV(1)),
+              Node(Leaf(TKV(1)), {Assn(KV(1), Leaf(TKV(1)))}), Node(KV(1), {Assn(Leaf(TKV(1)), KV(1))})}
 ShUpTo(B, n) == IF n = 0 THEN {} ELSE Sh(B, n) \cup ShUpTo(B, n - 1)
 =============================================================================
